@@ -410,6 +410,18 @@ func c12Natives() []c12Val {
 			add(map[string]interface{}{"m": mi, "n": []interface{}{mf}}, spec.O(spec.P("m", spec.O(wi...)), spec.P("n", spec.L(spec.O(wf...)))), "nested-map")
 		}
 	}
+	// nil interface values inside the typed container flavours (and inside []any / map[string]any): a nil is the nil kind
+	wo1, wl1 := spec.O(spec.P("x", spec.I(1))), spec.L(spec.I(2))
+	add([]at.Object{nil}, spec.L(spec.NilV), "slice-Object-nil")
+	add([]at.Object{o1, nil}, spec.L(wo1, spec.NilV), "slice-Object-nil")
+	add([]at.Object{nil, o1}, spec.L(spec.NilV, wo1), "slice-Object-nil")
+	add([]at.List{nil}, spec.L(spec.NilV), "slice-List-nil")
+	add([]at.List{l1, nil}, spec.L(wl1, spec.NilV), "slice-List-nil")
+	add([]at.List{nil, l1}, spec.L(spec.NilV, wl1), "slice-List-nil")
+	add(map[string]at.Object{"a": nil, "b": o1}, spec.O(spec.P("a", spec.NilV), spec.P("b", wo1)), "map-Object-nil")
+	add(map[string]at.List{"a": nil, "b": l1}, spec.O(spec.P("a", spec.NilV), spec.P("b", wl1)), "map-List-nil")
+	add([]interface{}{nil, at.Object(nil), at.List(nil)}, spec.L(spec.NilV, spec.NilV, spec.NilV), "slice-any-nil")
+	add(map[string]interface{}{"a": nil, "b": at.List(nil), "c": []at.Object{nil}}, spec.O(spec.P("a", spec.NilV), spec.P("b", spec.NilV), spec.P("c", spec.L(spec.NilV))), "map-any-nil")
 	return out
 }
 
